@@ -106,13 +106,21 @@ theorem decode_encode_record (P : Params) (hw : P.Wf) (r : Rec) (hf : RecFits P 
   obtain ⟨h80, h8, _⟩ := hw
   exact decode_encode P h80 (by omega) r hf rest
 
-/-- The image of a record is exactly `total_size` bytes, a multiple of the alignment. -/
+/-- The image of a record is exactly `total_size` bytes. -/
 theorem encodeRecord_length (P : Params) (hw : P.Wf) (r : Rec) : (encodeRecord P r).length = recSize P r := by
   obtain ⟨h80, h8, _⟩ := hw
-  have hp := paddedSize_ge P (by omega) (r.undo.length + r.redo.length)
-  simp only [encodeRecord, encOpt, recSize, List.length_append, le64_length, le32_length, le16_length,
-    List.length_cons, List.length_nil, List.length_replicate]
-  cases r.prev <;> cases r.oid <;> cases r.rowid <;> simp only [List.length_append, le64_length] <;> omega
+  exact encodeRecord_length' P h80 (by omega) r
+
+/-- **Block data area round trip**: walking the byte image of a block's data area the way the reader does (decode
+    at the offset, advance by `total_size`, stop at `used_bytes`) yields exactly the block's records — which is
+    also what the abstract walk `recsOf` of the state machine yields; whatever follows the used part is ignored. -/
+theorem decode_encode_block_data (P : Params) (hw : P.Wf) (b : Block) (hb : BlockOk P b)
+    (hf : ∀ r ∈ b.recs, RecFits P r) (tail : Bytes) :
+    decodeRecs b.recs.length b.used 0 (encodeRecs P b.recs ++ tail) = some b.recs ∧ recsOf P b = b.recs := by
+  obtain ⟨h80, h8, _⟩ := hw
+  refine ⟨?_, recsOf_ok P (by omega) b hb⟩
+  have := decodeRecs_encodeRecs P h80 (by omega) b.recs hf 0 tail
+  rw [hb]; simpa using this
 
 /-! ### the hypotheses are satisfiable -/
 
@@ -122,8 +130,7 @@ def exRec (tid : Nat) (undo redo : Bytes) : Rec :=
 example : Generated.walParams.Wf := walParams_wf
 example : ReadAheadPos [.push (exRec 1 [1, 2, 3] []), .force, .read 1, .reopen, .push (exRec 2 [] [9]), .crash, .read 4,
     .truncate, .read 2] := by decide
-example : RecFits Generated.walParams (exRec 5 [1, 2, 3] [4, 5]) := by
-  constructor <;> simp [exRec, optFits, recSize, paddedSize, roundUp, Generated.walParams]
+example : RecFits Generated.walParams (exRec 5 [1, 2, 3] [4, 5]) := by decide
 
 /-! ### the five defects of the shipped code: with the flag on, the property fails
 
